@@ -8,6 +8,8 @@ import (
 // Registry maps property ids to their checks.
 var Registry = map[string]func(tier string){
 	"C01": C01,
+	"C02": C02,
+	"C03": C03,
 }
 
 // Worker is the entry point of re-exec'd worker processes (C09).
